@@ -78,13 +78,21 @@ def Denotes (reg : Registry) (ctx : Nat) (pfx : String) (t : Nat) : Prop :=
 def prefixTree (reg : Registry) (ctx : Nat) (pfx : String) : Option Nat :=
   (reg.byId ctx).bind fun cm => (reg.findModuleByPrefix cm pfx).bind fun m => (reg.owner m).map (·.seq)
 
+/-- The tree a name without prefix belongs to, seen from a node of tree `id`: that tree — unless
+it is the private tree of a submodule, whose nodes live in the tree of the module it belongs to
+(when that module is loaded). -/
+def homeTree (reg : Registry) (id : Nat) : Nat :=
+  match reg.byId id with
+  | some sm => if sm.isSub then ((reg.owner sm).map (·.seq)).getD id else id
+  | none => id
+
 /-- The ways of writing the absolute path of the node at steps `q` of tree `t`, for a lookup
 started at `start` whose context module is `ctx`: the first step is either bare — then the
-lookup stays in the start node's own tree — or carries a prefix that denotes `t`'s module in
-`ctx`; the later steps are spelled freely. -/
+lookup stays in the start node's own module (`homeTree`) — or carries a prefix that denotes `t`'s
+module in `ctx`; the later steps are spelled freely. -/
 inductive AbsSpelling (reg : Registry) (start : Loc) (ctx : Nat) (t : Nat) : List String → Path → Prop
   | own (s : Step) (rest : List String) (q : Path) :
-      t = start.1 → Spells rest q → AbsSpelling reg start ctx t (stepName s :: rest) (s :: q)
+      t = homeTree reg start.1 → Spells rest q → AbsSpelling reg start ctx t (stepName s :: rest) (s :: q)
   | pfx (p : String) (s : Step) (rest : List String) (q : Path) :
       GoodPrefix p → Denotes reg ctx p t → Spells rest q →
       AbsSpelling reg start ctx t ((p ++ ":" ++ stepName s) :: rest) (s :: q)
@@ -163,7 +171,15 @@ def NamesNoChild (e : Entry) (part : String) : Prop :=
   (if e.d.isRpc then stripPrefix part ≠ "input" ∧ stripPrefix part ≠ "output"
    else stripPrefix part ≠ "." ∧ e.child? (stripPrefix part) = none)
 
-/-! ### growth: the only change a lookup may make -/
+/-! ### the changes a lookup may make -/
+
+/-- The forest after a lookup whose first prefix could not be resolved: goyang records an error
+("cannot find module giving prefix …") on the root entry of the tree the lookup started in. -/
+def withPrefixError (f : Forest) (id : Nat) : Forest :=
+  match f.tree? id with
+  | some root => f.setTree id (root.addErr (Err.bare "other"))
+  | none => f
+
 
 /-- Give the rpc/action `e` the input (output) it did not spell out. -/
 def addImplicit (isInput : Bool) (e : Entry) : Entry :=
